@@ -127,6 +127,29 @@ def check_ops(ctx, name, layout, ops, base):
                     requested.update(files)
                     if [os.path.abspath(g) for g in got] != [os.path.abspath(f) for f in files]:
                         ctx.violation("Population.__iter__", "in-order", spec, got, files, spec)
+                elif op[0] == "iter_trees":
+                    # the container's own iterator (the route Population.map and a chain member's consumer take)
+                    got = [t.source for t in pop.trees]
+                    requested.update(files)
+                    if [os.path.abspath(g) for g in got] != [os.path.abspath(f) for f in files]:
+                        ctx.violation("LazyLoadingTrees.__iter__", "in-order", spec, got, files, spec)
+                elif op[0] == "iter_trees_part":
+                    # a consumer that stops early: only the items actually taken may have been read
+                    it = iter(pop.trees)
+                    got = [next(it).source for _ in range(min(op[1], nfiles))]
+                    requested.update(files[: len(got)])
+                    if [os.path.abspath(g) for g in got] != [os.path.abspath(f) for f in files[: len(got)]]:
+                        ctx.violation("LazyLoadingTrees.__iter__", "in-order", spec, got, files[: len(got)], spec)
+                elif op[0] == "map":
+                    want = [layout[os.path.relpath(f, root)] for f in files]
+                    try:
+                        got = list(pop.map(_count_nodes, max_worker=1))
+                    except (OSError, PermissionError, NotImplementedError, ImportError) as e:
+                        ctx.notes.append(f"Population.map could not run in this sandbox: {type(e).__name__}: {e}")
+                        continue
+                    requested.update(files)
+                    if got != want:
+                        ctx.violation("Population.map", "one-result-per-tree-in-order", spec, got, want, spec)
                 elif op[0] == "len":
                     len(pop)
             except Exception as e:  # an operation of the property's quantifier must not fail
@@ -304,8 +327,13 @@ def run(ctx):
         ops_pool = [("idx", 0), ("idx", -1), ("idx", 1), ("idx", 2), ("idx", 7), ("idx", -9), ("slice", (0, 2, None)), ("slice", (1, None, None)),
                     ("slice", (None, None, -1)), ("slice", (-2, None, None)), ("iter",), ("len",)]
         depth = 2 if ctx.tier == "quick" else 3
+        # ACCESS ROUTES to a file's tree: every ordered pair (quick) / triple (thorough) of routes is a history of its own --
+        # load-once is a property of histories, and a route that fills no cache shows only when ANOTHER access follows it
+        routes = [("idx", 1), ("idx", -1), ("slice", (None, None, None)), ("slice", (None, None, -1)), ("iter",), ("iter_trees",), ("iter_trees_part", 2), ("map",)]
+        ops_pool = ops_pool + [("iter_trees",), ("iter_trees_part", 1), ("map",)]
         for name, layout in LAYOUTS.items():
             seqs = [()] + [(o,) for o in ops_pool]
+            seqs += [h for d in range(2, depth + 1) for h in itertools.product(routes, repeat=d)]
             for d in range(2, depth + 1):
                 allseq = list(itertools.product(ops_pool, repeat=d))
                 rng.shuffle(allseq)
@@ -320,7 +348,8 @@ def run(ctx):
         check_filter(ctx, base)
         check_same(ctx, base)
         ctx.rule("directory layouts {flat, nested, single, empty, mixed} x operation sequences (all of length<=1, sampled length 2.." + str(depth) +
-                 ") with a Tree.from_swc call counter; chains of 2-3 populations with 0-3 members; two-directory intersection; map with 2 workers. "
+                 "; ALL histories of length 2.." + str(depth) + " over the access routes index / negative index / slice / reversed slice / Population iteration / "
+                 "container iteration (whole, partial) / Population.map in a worker process) with a Tree.from_swc call counter checked after every step; chains of 2-3 populations with 0-3 members; two-directory intersection; map with 2 workers. "
                  "filter_population with 4 predicates; check_same on equal / different directory pairs. "
                  "Non-trivial = layout with >=1 file and >=1 operation", exhaustive=False)
     finally:
